@@ -191,8 +191,12 @@ func (h *Hub) CancelPairingWithSKI(ski string) {
 	}
 	h.verifPoint("cancel-pairing-after-lookup")
 
-	service.ConnectionStateDetail().SetState(api.ConnectionStateNone)
-	service.SetTrusted(false)
+	// aborting or closing the connection may have stored another state. Without a connection nothing of that happened:
+	// a state stored since then belongs to a pairing request that came in meanwhile and must not be overwritten
+	if existingC != nil {
+		service.ConnectionStateDetail().SetState(api.ConnectionStateNone)
+		service.SetTrusted(false)
+	}
 
 	h.hubReader.ServicePairingDetailUpdate(ski, service.ConnectionStateDetail())
 }
